@@ -170,7 +170,7 @@ def run(ctx, model_ok):
     ctx.rule = ('version-3 dumps: 0..9 events split over 1..5 chunks (empty chunks incl.), thread maps of 0..6 entries with trailing '
                 'bytes, stackshot fillers / junk containing marker prefixes, 0..9 tagged blocks in random order and multiplicity '
                 '(kernel extensions, dyld modules, trace codes, processes, images, string index, log events with records from the '
-                'C16 grammar, unknown tags), last block aligned or not; non-trivial = distinct dump with >= 2 chunks, >= 1 event '
+                'C16 grammar, unknown tags), last block aligned or not; plus dumps with 440..65536 bytes before the stackshot marker / the thread-map tag, every length within 72 bytes of 512, 4096 (thorough: 8192, 65536); non-trivial = distinct dump with >= 2 chunks, >= 1 event '
                 'and >= 3 blocks')
     dcases, mcases = [], []
     for g, rs in zip(gens, res):
@@ -237,6 +237,29 @@ def run(ctx, model_ok):
         mcases.append(f'({clist(tbl)}, {bl}, {r["err_b_code"]}, {vlib.cbytes(r["trace_codes"].encode())}, '
                       f'{c16.coq_pv(r["meta"]["processes"])}, {clist([c16.coq_pv(x) for x in kx["l"]])}, '
                       f'{c16.coq_pv(r["meta"]["images"])}, {c16.coq_pv(r["meta"]["dyld"])}, {logs})')
+    # long stretches before the markers: every length around the usual buffer sizes, so that the marker the parser looks
+    # for straddles any block boundary a buffered scan might have (implementation against what the file holds)
+    lreq, linfo = [], []
+    sizes = [512, 4096] if ctx.quick() else [512, 4096, 8192, 65536]
+    rec = D.record(5, [1, 2, 3, 4], 7, 0x040c000c | 1)
+    for B in sizes:
+        for L in (range(B - 72, B + 9) if B < 65536 else range(B - 24, B + 3)):
+            for where in ('filler', 'junk'):
+                pad = bytes([0x41 + (j % 23) for j in range(L)])
+                data = D.build_v3([(7, 1, b'p')], [[rec]], [], filler=pad if where == 'filler' else b'',
+                                  junk=pad if where == 'junk' else b'')
+                lreq.append({'file': data.hex()})
+                linfo.append((B, L, where, data))
+    lres = vlib.run_impl('run_container.py', {'cases': lreq}, timeout=3000)['results']
+    ctx.evaluations += len(lreq)
+    for (B, L, where, data), rs in zip(linfo, lres):
+        r = rs[0]
+        if r['err'] is not None or r['events'] != [[5, 7, 0x040c000d]] or [tuple(x) for x in (r['tm'] or [])] != [(7, 1, 'p')]:
+            ctx.failing.append({'input': {'file_description': f'v3 dump with {L} bytes of {where} before the marker, one thread, one record',
+                                          'file': data.hex() if len(data) < 6000 else None, 'length': L, 'where': where},
+                                'expected': {'events': [[5, 7, 0x040c000d]], 'threadmap': [[7, 1, 'p']]},
+                                'actual': {'events': r['events'], 'threadmap': r['tm'], 'err': r['err']},
+                                'why': 'version-3 dump: events / thread map differ from what the file holds (long stretch before a marker)'})
     ctx.samples = [{'file_len': len(gens[0]['data']), 'chunks': [len(c) for c in gens[0]['chunks']],
                     'block_tags': [t.hex() for t, _ in gens[0]['blocks']], 'impl_summary': res[0][0]['summary'],
                     'n_logs': res[0][0]['n_logs']}]
